@@ -134,3 +134,219 @@ Definition junk_cell (v : N) : bool := negb (is_attr v) && negb (v =? 11) && neg
 Definition rowspec_ok (r : rowspec) : bool :=
   forallb junk_cell (rw_pre r) && segs_ok true (tsty0 unit tt) (rw_segs r)
   && match rw_end r with Some j => forallb (fun v => negb (is_attr v) && negb (v =? 11)) j | None => true end.
+
+(* ---- what a data unit is, read with the standard's decoders ---- *)
+(* magazine (1..8), packet number and payload of a subtitle data unit carrying a teletext packet *)
+Definition unit_addr (u : N * str) : option (N * N * str) :=
+  let d := snd u in
+  if negb (fst u =? 3) then None else
+  if Nat.ltb (length d) 4 then None else
+  if negb (nth 1 d 0 =? 228) then None else
+  match ham84_dec (nth 2 d 0), ham84_dec (nth 3 d 0) with
+  | Some h1, Some h2 =>
+    let h := N.land (N.lor (N.shiftl h2 4) h1) 255 in
+    Some ((let m := N.land h 7 in if m =? 0 then 8 else m), N.shiftr h 3, skipn 4 d)
+  | _, _ => None
+  end.
+(* page digits of a header packet; None: too short, uncorrectable, or the time-filling page FF *)
+Definition hdr_digits (p : str) : option (N * N) :=
+  if Nat.ltb (length p) 8 then None else
+  match ham84_dec (nth 0 p 0), ham84_dec (nth 1 p 0) with
+  | Some u, Some t => if (t =? 15) && (u =? 15) then None else Some (u, t)
+  | _, _ => None
+  end.
+(* page number, serial flag and national option of a header packet that can be acted upon *)
+Definition hdr_full (p : str) : option (Z * bool * N) :=
+  match hdr_digits p with
+  | None => None
+  | Some (u, t) =>
+    match ham84_dec (nth 7 p 0) with
+    | None => None
+    | Some cb => Some (Z.of_N (t * 10 + u), 0 <? N.land cb 1, N.shiftr cb 1)
+    end
+  end.
+(* does a header carry the subtitle flag (C6)?  None: the control byte is uncorrectable *)
+Definition hdr_c6 (p : str) : option bool :=
+  match ham84_dec (nth 5 p 0) with Some cb => Some (0 <? N.land cb 8) | None => None end.
+
+(* an X/28 or M/29 payload that leaves the character set designation alone *)
+Definition triplet_inert (pkt : N) (p : str) : bool :=
+  Nat.ltb (length p) 1 ||
+  match ham84_dec (nth 0 p 0) with
+  | None => true
+  | Some dc => (negb (dc =? 0) && negb (dc =? 4)) || Nat.ltb (length (tl p)) 3
+               || ((pkt =? 28) && (0 <? N.land (nth 0 (tl p) 0) 15))
+  end.
+
+(* classes of data units relative to the selected page (mag0, pn0) *)
+Definition is_our_header (mag0 : N) (pn0 : Z) (cs : N) (u : N * str) : bool :=
+  match unit_addr u with
+  | Some (mag, pkt, p) =>
+    (mag =? mag0) && (pkt =? 0) &&
+    match hdr_full p with Some (pn, _, c) => (pn =? pn0)%Z && (c =? cs) | None => false end
+  | None => false
+  end.
+Definition is_our_row (mag0 : N) (row : N) (cells : list N) (u : N * str) : bool :=
+  match unit_addr u with
+  | Some (mag, pkt, p) =>
+    (mag =? mag0) && (pkt =? row) && (1 <=? pkt) && (pkt <=? 25) && negb (Nat.ltb (length p) 40)
+    && str_eqb (map cell0 (firstn 40 p)) cells
+  | None => false
+  end.
+(* the header of another page that ends the reception of ours: same magazine, or any magazine in serial mode *)
+Definition is_terminator (mag0 : N) (pn0 : Z) (u : N * str) : bool :=
+  match unit_addr u with
+  | Some (mag, pkt, p) =>
+    (pkt =? 0) && match hdr_full p with Some (pn, serial, _) => negb (pn =? pn0)%Z && (serial || (mag =? mag0)) | None => false end
+  | None => false
+  end.
+(* units that cannot matter while the page is selected, whether it is being received or not: non-subtitle and
+   stuffing units, wrong framing code, too short, uncorrectable address; headers that cannot be acted upon; headers
+   of other magazines in parallel mode or with our page number; packets 1..25 of other magazines (or too short);
+   X/26, X/27, X/30, X/31 of any magazine; X/28 and M/29 of other magazines or inert *)
+Definition benign (mag0 : N) (pn0 : Z) (u : N * str) : bool :=
+  match unit_addr u with
+  | None => true
+  | Some (mag, pkt, p) =>
+    if pkt =? 0 then
+      match hdr_full p with
+      | None => true
+      | Some (pn, serial, _) => negb (mag =? mag0) && ((pn =? pn0)%Z || negb serial)
+      end
+    else if pkt <=? 25 then negb (mag =? mag0) || Nat.ltb (length p) 40
+    else if (pkt =? 28) || (pkt =? 29) then negb (mag =? mag0) || triplet_inert pkt p
+    else true
+  end.
+(* units that cannot matter while our page is not being received: anything but its header (and M/29 designations) *)
+Definition dead_ok (mag0 : N) (pn0 : Z) (u : N * str) : bool :=
+  match unit_addr u with
+  | None => true
+  | Some (mag, pkt, p) =>
+    if pkt =? 0 then
+      match hdr_full p with
+      | None => true
+      | Some (pn, _, _) => negb ((mag =? mag0) && (pn =? pn0)%Z)
+      end
+    else if pkt =? 29 then negb (mag =? mag0) || triplet_inert pkt p
+    else true
+  end.
+(* before a page has been selected (auto-detection): anything but a header carrying the subtitle flag *)
+Definition unselected_ok (u : N * str) : bool :=
+  match unit_addr u with
+  | None => true
+  | Some (mag, pkt, p) =>
+    if pkt =? 0 then
+      match hdr_digits p with
+      | None => true
+      | Some _ => match hdr_c6 p with Some true => false | _ => true end
+      end
+    else true
+  end.
+
+(* ---- ground-truth page schedules ---- *)
+(* one transmitted instance of the page: presentation time of the PES packet that carries its header, national
+   option, rows (row number, structured row of 40 cells) *)
+Record inst := mkInst { i_t : Z; i_cs : N; i_rows : list (N * rowspec) }.
+Record sched := mkSched { s_mag : N; s_pn : Z; s_insts : list inst }.
+
+(* the character table of national option cs under the default designation: the G0 set with the option's 13
+   characters substituted, as the generated tables have it *)
+Definition g0_table (cs : N) : list str := match charset_for 0 cs with Ok c => c | _ => [] end.
+
+(* the lines of an instance: its rows in row order, each row's runs, rows without text dropped *)
+Fixpoint lines_for (c : list str) (rows : list (N * rowspec)) (keys : list N) : list (list trunT) :=
+  match keys with
+  | [] => []
+  | k :: r =>
+    match alookup k rows with
+    | Some sp => match row_runs c sp with [] => lines_for c rows r | runs => runs :: lines_for c rows r end
+    | None => lines_for c rows r
+    end
+  end.
+Definition inst_lines (c : list str) (rows : list (N * rowspec)) : list (list trunT) :=
+  lines_for c rows (nsort (map fst rows)).
+
+(* the cues a schedule denotes: one per instance with rows, from its presentation time to the next instance's
+   (the last presentation time for the final one), relative to the first presentation time *)
+Fixpoint cues_from (first last : Z) (l : list inst) : list tcue :=
+  match l with
+  | [] => []
+  | i :: r =>
+    let en := match r with j :: _ => i_t j | [] => last end in
+    match i_rows i with
+    | [] => cues_from first last r
+    | _ => mkTcue (i_t i - first) (en - first) (inst_lines (g0_table (i_cs i)) (i_rows i)) :: cues_from first last r
+    end
+  end.
+Definition cues_of (s : sched) (first last : Z) : list tcue := cues_from first last (s_insts s).
+
+(* ---- multiplexing choices ---- *)
+Definition tunit := (Z * (N * str))%type.     (* a data unit with the time of the PES packet it travels in *)
+Record imux := mkImux {
+  im_hdr : N * str;                           (* the unit carrying the instance's header *)
+  im_body : list (Z * (bool * (N * str)));    (* while receiving: (true, u) the next row, (false, u) a unit that cannot matter *)
+  im_tail : option (tunit * list tunit)       (* the header of another page ending the reception, then anything but our header *)
+}.
+Record mux := mkMux { mx_pre : list tunit; mx_insts : list imux }.
+
+Definition inst_events (im : inst * imux) : list tunit :=
+  let (i, m) := im in
+  (i_t i, im_hdr m) :: map (fun x => (fst x, snd (snd x))) (im_body m)
+  ++ match im_tail m with Some (tm, dead) => tm :: dead | None => [] end.
+Definition events (s : sched) (m : mux) : list tunit :=
+  mx_pre m ++ flat_map inst_events (combine (s_insts s) (mx_insts m)).
+
+Fixpoint body_ok (mag0 : N) (pn0 : Z) (rows : list (N * rowspec)) (body : list (Z * (bool * (N * str)))) : bool :=
+  match body with
+  | [] => match rows with [] => true | _ => false end
+  | (_, (true, u)) :: r =>
+    match rows with
+    | (row, sp) :: rs => is_our_row mag0 row (row_cells sp) u && body_ok mag0 pn0 rs r
+    | [] => false
+    end
+  | (_, (false, u)) :: r => benign mag0 pn0 u && body_ok mag0 pn0 rows r
+  end.
+Fixpoint nodupN (l : list N) : bool := match l with [] => true | x :: r => negb (nmem x r) && nodupN r end.
+Definition inst_mux_ok (mag0 : N) (pn0 : Z) (im : inst * imux) : bool :=
+  let (i, m) := im in
+  is_our_header mag0 pn0 (i_cs i) (im_hdr m)
+  && nodupN (map fst (i_rows i)) && forallb (fun r => rowspec_ok (snd r)) (i_rows i)
+  && body_ok mag0 pn0 (i_rows i) (im_body m)
+  && match im_tail m with
+     | Some (tm, dead) => is_terminator mag0 pn0 (snd tm) && forallb (fun x => dead_ok mag0 pn0 (snd x)) dead
+     | None => true
+     end.
+(* the decidable class of multiplexings, for a reader that is given the page *)
+Definition mux_ok (s : sched) (m : mux) : bool :=
+  (1 <=? s_mag s) && (s_mag s <=? 8) && (0 <=? s_pn s)%Z && (s_pn s <=? 99)%Z
+  && Nat.eqb (length (s_insts s)) (length (mx_insts m))
+  && forallb (fun x => dead_ok (s_mag s) (s_pn s) (snd x)) (mx_pre m)
+  && forallb (inst_mux_ok (s_mag s) (s_pn s)) (combine (s_insts s) (mx_insts m)).
+(* and for a reader that has to find the page: nothing carrying the subtitle flag in front of our first header,
+   which carries it *)
+Definition mux_ok_auto (s : sched) (m : mux) : bool :=
+  (1 <=? s_mag s) && (s_mag s <=? 8) && (0 <=? s_pn s)%Z && (s_pn s <=? 99)%Z
+  && Nat.eqb (length (s_insts s)) (length (mx_insts m))
+  && forallb (fun x => unselected_ok (snd x)) (mx_pre m)
+  && match mx_insts m with
+     | im :: _ => match unit_addr (im_hdr im) with Some (_, _, p) => match hdr_c6 p with Some true => true | _ => false end | None => false end
+     | [] => true
+     end
+  && forallb (inst_mux_ok (s_mag s) (s_pn s)) (combine (s_insts s) (mx_insts m)).
+
+(* the delivered list: PES packets (time, data identifier, data units) whose units in order are the events *)
+Definition pes := (Z * N * list (N * str))%type.
+Definition enc_pes (p : pes) : option Z * str :=
+  let '(t, ident, us) := p in (Some t, ident :: concat (map enc_unit us)).
+Definition pes_units (p : pes) : list tunit := let '(t, _, us) := p in map (fun u => (t, u)) us.
+Definition pes_ok (p : pes) : bool := let '(_, ident, _) := p in (16 <=? ident) && (ident <=? 31).
+Fixpoint tmin (l : list pes) (acc : option Z) : option Z :=
+  match l with
+  | [] => acc
+  | (t, _, _) :: r => tmin r (Some (match acc with Some x => if (t <? x)%Z then t else x | None => t end))
+  end.
+Fixpoint tmax (l : list pes) (acc : option Z) : option Z :=
+  match l with
+  | [] => acc
+  | (t, _, _) :: r => tmax r (Some (match acc with Some x => if (x <? t)%Z then t else x | None => t end))
+  end.
